@@ -129,6 +129,73 @@ package network
 //@   modifies nothing
 //@   ensures [def] result == len(n.allNodes) + len(n.controlNodes)
 
+// Successors / predecessors (graph.Graph From / To). The slice handed to the gonum iterator is pinned down at the call:
+// first the far ends of the node's own links in list order, then - in the order of the control-node list - exactly
+// those control nodes that list the node among their inputs (From) / outputs (To), each once. gWit / gK are the witnesses:
+// the index of the control node a trailing entry stands for (strictly increasing) and of the link that justifies it.
+//@ ghost gWit (Array Int Int)
+//@ ghost gK (Array Int Int)
+//@ pred ctlFeeds(cn *NNode, id int64) = exists k :: 0 <= k && k < len(cn.Incoming) && cn.Incoming[k].InNode.Id == id
+//@ pred ctlFedBy(cn *NNode, id int64) = exists k :: 0 <= k && k < len(cn.Outgoing) && cn.Outgoing[k].OutNode.Id == id
+//@ func (*Network).From
+//@   props C11
+//@   requires n != nil && netNodesWF(n) && linkEndsWF()
+//@   modifies ghost gWit, ghost gK
+//@   set gWit = upd(gWit, len(nodes), #idx2) @ before * ID
+//@   set gK = upd(gK, len(nodes), #idx3) @ before * ID
+//@   assert [own] len(arg0) >= len(node.Outgoing) && (forall p :: 0 <= p && p < len(node.Outgoing) ==> typeIs(arg0[p], "*NNode") && asPtr(arg0[p], "*NNode") == node.Outgoing[p].OutNode) @ before 1 NewOrderedNodes
+//@   assert [ctlSound] forall p :: len(node.Outgoing) <= p && p < len(arg0) ==> 0 <= sel(gWit, p) && sel(gWit, p) < len(n.controlNodes) && typeIs(arg0[p], "*NNode") && asPtr(arg0[p], "*NNode") == n.controlNodes[sel(gWit, p)] && 0 <= sel(gK, p) && sel(gK, p) < len(n.controlNodes[sel(gWit, p)].Incoming) && n.controlNodes[sel(gWit, p)].Incoming[sel(gK, p)].InNode.Id == id @ before 1 NewOrderedNodes
+//@   assert [ctlOnce] forall p, q :: len(node.Outgoing) <= p && p < q && q < len(arg0) ==> sel(gWit, p) < sel(gWit, q) @ before 1 NewOrderedNodes
+//@   assert [ctlComplete] forall c :: 0 <= c && c < len(n.controlNodes) && ctlFeeds(n.controlNodes[c], id) ==> (exists p :: len(node.Outgoing) <= p && p < len(arg0) && sel(gWit, p) == c) @ before 1 NewOrderedNodes
+//@   loop 1:
+//@     invariant -1 <= #idx && #idx < len(node.Outgoing) && node != nil && len(nodes) == #idx + 1 && fresh(nodes)
+//@     invariant [memFrame] forall b :: wasAllocated(b) ==> Mem[graph.Node][b] == old(Mem[graph.Node][b])
+//@     invariant forall p :: 0 <= p && p <= #idx ==> typeIs(nodes[p], "*NNode") && asPtr(nodes[p], "*NNode") == node.Outgoing[p].OutNode
+//@   loop 2:
+//@     invariant -1 <= #idx && #idx < len(n.controlNodes) && node != nil && len(nodes) >= len(node.Outgoing) && fresh(nodes)
+//@     invariant [memFrame] forall b :: wasAllocated(b) ==> Mem[graph.Node][b] == old(Mem[graph.Node][b])
+//@     invariant [own] forall p :: 0 <= p && p < len(node.Outgoing) ==> typeIs(nodes[p], "*NNode") && asPtr(nodes[p], "*NNode") == node.Outgoing[p].OutNode
+//@     invariant [sound] forall p :: len(node.Outgoing) <= p && p < len(nodes) ==> 0 <= sel(gWit, p) && sel(gWit, p) <= #idx && typeIs(nodes[p], "*NNode") && asPtr(nodes[p], "*NNode") == n.controlNodes[sel(gWit, p)] && 0 <= sel(gK, p) && sel(gK, p) < len(n.controlNodes[sel(gWit, p)].Incoming) && n.controlNodes[sel(gWit, p)].Incoming[sel(gK, p)].InNode.Id == id
+//@     invariant [once] forall p, q :: len(node.Outgoing) <= p && p < q && q < len(nodes) ==> sel(gWit, p) < sel(gWit, q)
+//@     invariant [complete] forall c :: 0 <= c && c <= #idx && ctlFeeds(n.controlNodes[c], id) ==> (exists p :: len(node.Outgoing) <= p && p < len(nodes) && sel(gWit, p) == c)
+//@   loop 3:
+//@     invariant -1 <= #idx && #idx < len(cn.Incoming) && 0 <= #idx2 && #idx2 < len(n.controlNodes) && cn == n.controlNodes[#idx2] && node != nil && len(nodes) >= len(node.Outgoing) && fresh(nodes)
+//@     invariant [memFrame] forall b :: wasAllocated(b) ==> Mem[graph.Node][b] == old(Mem[graph.Node][b])
+//@     invariant [own] forall p :: 0 <= p && p < len(node.Outgoing) ==> typeIs(nodes[p], "*NNode") && asPtr(nodes[p], "*NNode") == node.Outgoing[p].OutNode
+//@     invariant [sound] forall p :: len(node.Outgoing) <= p && p < len(nodes) ==> 0 <= sel(gWit, p) && sel(gWit, p) < #idx2 && typeIs(nodes[p], "*NNode") && asPtr(nodes[p], "*NNode") == n.controlNodes[sel(gWit, p)] && 0 <= sel(gK, p) && sel(gK, p) < len(n.controlNodes[sel(gWit, p)].Incoming) && n.controlNodes[sel(gWit, p)].Incoming[sel(gK, p)].InNode.Id == id
+//@     invariant [once] forall p, q :: len(node.Outgoing) <= p && p < q && q < len(nodes) ==> sel(gWit, p) < sel(gWit, q)
+//@     invariant [complete] forall c :: 0 <= c && c < #idx2 && ctlFeeds(n.controlNodes[c], id) ==> (exists p :: len(node.Outgoing) <= p && p < len(nodes) && sel(gWit, p) == c)
+//@     invariant [notYet] forall k :: 0 <= k && k <= #idx ==> cn.Incoming[k].InNode.Id != id
+//@ func (*Network).To
+//@   props C11
+//@   requires n != nil && netNodesWF(n) && linkEndsWF()
+//@   modifies ghost gWit, ghost gK
+//@   set gWit = upd(gWit, len(nodes), #idx2) @ before * ID
+//@   set gK = upd(gK, len(nodes), #idx3) @ before * ID
+//@   assert [own] len(arg0) >= len(node.Incoming) && (forall p :: 0 <= p && p < len(node.Incoming) ==> typeIs(arg0[p], "*NNode") && asPtr(arg0[p], "*NNode") == node.Incoming[p].InNode) @ before 1 NewOrderedNodes
+//@   assert [ctlSound] forall p :: len(node.Incoming) <= p && p < len(arg0) ==> 0 <= sel(gWit, p) && sel(gWit, p) < len(n.controlNodes) && typeIs(arg0[p], "*NNode") && asPtr(arg0[p], "*NNode") == n.controlNodes[sel(gWit, p)] && 0 <= sel(gK, p) && sel(gK, p) < len(n.controlNodes[sel(gWit, p)].Outgoing) && n.controlNodes[sel(gWit, p)].Outgoing[sel(gK, p)].OutNode.Id == id @ before 1 NewOrderedNodes
+//@   assert [ctlOnce] forall p, q :: len(node.Incoming) <= p && p < q && q < len(arg0) ==> sel(gWit, p) < sel(gWit, q) @ before 1 NewOrderedNodes
+//@   assert [ctlComplete] forall c :: 0 <= c && c < len(n.controlNodes) && ctlFedBy(n.controlNodes[c], id) ==> (exists p :: len(node.Incoming) <= p && p < len(arg0) && sel(gWit, p) == c) @ before 1 NewOrderedNodes
+//@   loop 1:
+//@     invariant -1 <= #idx && #idx < len(node.Incoming) && node != nil && len(nodes) == #idx + 1 && fresh(nodes)
+//@     invariant [memFrame] forall b :: wasAllocated(b) ==> Mem[graph.Node][b] == old(Mem[graph.Node][b])
+//@     invariant forall p :: 0 <= p && p <= #idx ==> typeIs(nodes[p], "*NNode") && asPtr(nodes[p], "*NNode") == node.Incoming[p].InNode
+//@   loop 2:
+//@     invariant -1 <= #idx && #idx < len(n.controlNodes) && node != nil && len(nodes) >= len(node.Incoming) && fresh(nodes)
+//@     invariant [memFrame] forall b :: wasAllocated(b) ==> Mem[graph.Node][b] == old(Mem[graph.Node][b])
+//@     invariant [own] forall p :: 0 <= p && p < len(node.Incoming) ==> typeIs(nodes[p], "*NNode") && asPtr(nodes[p], "*NNode") == node.Incoming[p].InNode
+//@     invariant [sound] forall p :: len(node.Incoming) <= p && p < len(nodes) ==> 0 <= sel(gWit, p) && sel(gWit, p) <= #idx && typeIs(nodes[p], "*NNode") && asPtr(nodes[p], "*NNode") == n.controlNodes[sel(gWit, p)] && 0 <= sel(gK, p) && sel(gK, p) < len(n.controlNodes[sel(gWit, p)].Outgoing) && n.controlNodes[sel(gWit, p)].Outgoing[sel(gK, p)].OutNode.Id == id
+//@     invariant [once] forall p, q :: len(node.Incoming) <= p && p < q && q < len(nodes) ==> sel(gWit, p) < sel(gWit, q)
+//@     invariant [complete] forall c :: 0 <= c && c <= #idx && ctlFedBy(n.controlNodes[c], id) ==> (exists p :: len(node.Incoming) <= p && p < len(nodes) && sel(gWit, p) == c)
+//@   loop 3:
+//@     invariant -1 <= #idx && #idx < len(cn.Outgoing) && 0 <= #idx2 && #idx2 < len(n.controlNodes) && cn == n.controlNodes[#idx2] && node != nil && len(nodes) >= len(node.Incoming) && fresh(nodes)
+//@     invariant [memFrame] forall b :: wasAllocated(b) ==> Mem[graph.Node][b] == old(Mem[graph.Node][b])
+//@     invariant [own] forall p :: 0 <= p && p < len(node.Incoming) ==> typeIs(nodes[p], "*NNode") && asPtr(nodes[p], "*NNode") == node.Incoming[p].InNode
+//@     invariant [sound] forall p :: len(node.Incoming) <= p && p < len(nodes) ==> 0 <= sel(gWit, p) && sel(gWit, p) < #idx2 && typeIs(nodes[p], "*NNode") && asPtr(nodes[p], "*NNode") == n.controlNodes[sel(gWit, p)] && 0 <= sel(gK, p) && sel(gK, p) < len(n.controlNodes[sel(gWit, p)].Outgoing) && n.controlNodes[sel(gWit, p)].Outgoing[sel(gK, p)].OutNode.Id == id
+//@     invariant [once] forall p, q :: len(node.Incoming) <= p && p < q && q < len(nodes) ==> sel(gWit, p) < sel(gWit, q)
+//@     invariant [complete] forall c :: 0 <= c && c < #idx2 && ctlFedBy(n.controlNodes[c], id) ==> (exists p :: len(node.Incoming) <= p && p < len(nodes) && sel(gWit, p) == c)
+//@     invariant [notYet] forall k :: 0 <= k && k <= #idx ==> cn.Outgoing[k].OutNode.Id != id
+
 // ---- C06 / C13: node constructors ----------------------------------------------------------------
 //@ func NewNNodeCopy
 //@   props C06
